@@ -7,3 +7,5 @@ import (
 func osexec(name string, args ...string) error {
 	return osx.Command(name, args...).Run()
 }
+
+func osLookPath(name string) (string, error) { return osx.LookPath(name) }
